@@ -408,7 +408,7 @@ def mode_rerun(args):
     shapes = []
     for n in (1, 2, 3):
         shapes.extend((n, e) for e in all_edge_maps(n))
-    events = ('keep', 'lose', 'fail', 'recover')      # per task, between two runs
+    events = ('keep', 'lose', 'fail', 'recover', 'stale')      # per task, between two runs
     cases = []
     for n, edges in shapes:
         for out1 in itertools.product(('done', 'failed'), repeat=n):
@@ -455,6 +455,15 @@ def _rerun_case(n, edges, out1, between):
     env1 = Scheduler(hard_graph=hard, soft_graph=soft, backend=QueueScheduling(n_workers=2)).schedule(env=Env())
     # carry over the documented way: only DONE entries are merged into a pristine environment; 'lose' drops the file
     persisted = Env({k: copy.deepcopy(dict(v)) for k, v in env1.items() if between[int(k[1:])] != 'lose'})
+    # 'stale': the dependencies of the task were re-executed by another job in between (e.g. a sub-job without this task):
+    # its persisted entry is older than theirs
+    for j in range(n):
+        name = f't{j}'
+        if between[j] == 'stale' and name in persisted and any((i, j) in edges for i in range(j)):
+            ent = persisted[name]
+            if 'start_clock' in ent:
+                ent['start_clock'] = ent['start_clock'] - 1000.0
+                ent['end_clock'] = ent['end_clock'] - 1000.0
     env2 = Env()
     env2.merge_done_tasks(persisted)
     carried = {k: copy.deepcopy(dict(v)) for k, v in env2.items()}
@@ -496,6 +505,14 @@ def _rerun_case(n, edges, out1, between):
         # up-to-date tasks are not executed again and keep their entry
         was_done = name in carried
         all_kept = was_done and all(f't{i}' in carried and f't{i}' not in executed2 for i in clo[j])
+        # "up to date": the clocks carried over are consistent along every dependency edge below the task (the first clause of the
+        # property demands a re-execution otherwise)
+        if all_kept:
+            for k in clo[j] | {j}:
+                for i in deps[k]:
+                    e_, s_ = carried[f't{i}'].get('end_clock'), carried[f't{k}'].get('start_clock')
+                    if e_ is None or s_ is None or not e_ <= s_:
+                        all_kept = False
         if all_kept:
             if name in executed2:
                 probs.append(f'C04: {name} was DONE with all transitive dependencies DONE and not re-executed, yet it was executed again')
